@@ -458,7 +458,11 @@ def run_pair(impl_cmd, model_cmd, request_path, timeout=1800, impl_env=None):
 class Rng:
     """Small deterministic PRNG (splitmix64) so that python-version differences never change a replay."""
     def __init__(self, seed):
-        self.s = (seed * 0x9E3779B97F4A7C15 + 0x1234567) & 0xFFFFFFFFFFFFFFFF
+        # mix the seed so that Rng(s) and Rng(s+1) are unrelated streams (not one draw apart)
+        z = (seed + 0x632BE59BD9B4E019) & 0xFFFFFFFFFFFFFFFF
+        z = ((z ^ (z >> 32)) * 0xD6E8FEB86659FD93) & 0xFFFFFFFFFFFFFFFF
+        z = ((z ^ (z >> 29)) * 0xFF51AFD7ED558CCD) & 0xFFFFFFFFFFFFFFFF
+        self.s = z ^ (z >> 32)
 
     def next(self):
         self.s = (self.s + 0x9E3779B97F4A7C15) & 0xFFFFFFFFFFFFFFFF
